@@ -242,6 +242,49 @@ def or_of(p, v, acc, flag):
     return False
 
 
+def result_kind(f, p, scrut, adt_name='CoderResult'):
+    """which variant of the result the path has established: by a match on it, or by ==/!= against a constant variant"""
+    arm = [e for e in p.conds() if e[1][0] == 'variant' and e[1][1] == scrut]
+    if len(arm) == 1 and isinstance(arm[0][2], str):
+        return arm[0][2]
+    adt = f.adts.get(adt_name)
+    if adt is None:
+        return None
+    names = [v['name'] for v in adt['variants']]
+    for e in p.conds():
+        ce, t = e[1], e[2]
+        if ce[0] == 'call' and (ce[1] or '').endswith(('::eq', '::ne')) and len(ce[2]) == 2 and isinstance(t, bool):
+            a0, a1 = ce[2]
+            for x, y in ((a0, a1), (a1, a0)):
+                xs = strip_ref(x)
+                while xs[0] in ('deref', 'ref'):
+                    xs = strip_ref(xs[1])
+                if xs != scrut:
+                    continue
+                ys = strip_ref(y)
+                while ys[0] in ('deref', 'ref'):
+                    ys = strip_ref(ys[1])
+                k = None
+                if ys[0] == 'agg':
+                    k = variant_name(ys)
+                elif ys[0] == 'cptr' and ys[2] == 0:
+                    import json as _json
+                    tgt = _json.loads(ys[1])
+                    if 'mem' in tgt and str(tgt['mem']) in f.mems:
+                        dv = int.from_bytes(f.mem_bytes(tgt['mem']), 'little')
+                        ks = [v['name'] for v in adt['variants'] if v['discr'] == dv]
+                        k = ks[0] if len(ks) == 1 else None
+                if k is None:
+                    continue
+                is_k = (ce[1].endswith('::eq')) == t
+                if is_k:
+                    return k
+                others = [n_ for n_ in names if n_ != k]
+                if len(others) == 1:
+                    return others[0]
+    return None
+
+
 def loop_roles(b, H, callee):
     """(position local, paths): the loop-carried usize local that slices the input for the conversion call (`&bytes[total_read..]`),
     found from the call itself, not by its name"""
@@ -419,12 +462,12 @@ def encode_fn(rep, f, c):
             ix = index_from(a[1])
             ok &= ix is not None and len(ix) == 2 and strip_ref(ix[0]) == ARG and ix[1] == TR and a[3] == ('c', 1, 'bool')
             res = ('call', ec_[0][1], a, ec_[0][3])
-            arm = [e for e in p.conds() if e[1][0] == 'variant' and e[1][1] == tuple_field(res, 0)]
+            kind_ = result_kind(f, p, tuple_field(res, 0))
             rv = p.env.get(0)
-            if arm and arm[0][2] == 'InputEmpty':
+            if kind_ == 'InputEmpty':
                 kinds.add('done')
                 ok &= p.end[0] == 'return' and rv is not None and rv[0] == 'agg' and find_agg(rv[2][0], 'Cow::Owned') is not None
-            elif arm and arm[0][2] == 'OutputFull':
+            elif kind_ == 'OutputFull':
                 kinds.add('grow')
                 ok &= p.end[0] == 'back' and sum_of(p.env.get(TRl, TR), TR, tuple_field(res, 1))
         rep.ob('C11-D3.encode-loop', fn, ok and kinds == {'done', 'grow'}, 'encode loop is not: encode_from_utf8_to_vec(&string[total_read..], &mut vec, true) until InputEmpty, growing on OutputFull', site, {'cases': sorted(kinds)}, c)
